@@ -1,27 +1,99 @@
-(* C20 — Unmarshal accepts only respellings of what Marshal would have written.
-   Statements only.  [C20_full_statement] is the property for the unambiguous class; its proof is in progress:
-   it is re-evaluated by the model on every accepted generated string of each run (Codec/C20Test.v), and the
-   parts below are proved. *)
+(* C20 — Unmarshal accepts only respellings of what Marshal would have written.  Statements only.
+   The statement as first written (Codec/C20Test.v: C20_statement, quantifying over ARBITRARY text-(un)marshaler
+   behaviours and every layout of the unambiguous class) is FALSE (C20_statement_false) — e.g. a text unmarshaler may accept
+   text its marshaler does not regenerate, and a value whose first text begins with '_' marshals to a string that reads as
+   a prefix.  The property is proved (C20_converse_gen) for the unambiguous class under side conditions each of which is
+   forced by a computed counterexample (the cx_ examples of Codec/C20PExamples.v) and all of which hold for the nine shipped layouts of
+   the class (C20_shipped):
+     cb_coherent   text-typed fields: what the unmarshaler accepts, the marshaler writes back (std_cb: C20_std_coherent)
+     params_noeq   no parameter name contains '='        arrays_sized  a plain [n]byte field has length n
+     ints_wf       plain integers have 1..64 bits, base 2..36         ints_unsized  plain integers carry no length: tag
+     inline_next_exact  the field after an inline field is not a plain integer
+     prefix_plain_ok    an optional prefix without text methods is a string
+     headed        the layout requires a prefix or its first field is required and not a group member — or the accepted
+                   string has a prefix (inherent ambiguity of a first text that looks like a prefix, DESIGN.md 5.2)
+   respell s s' (Codec/Respell.v): same value texts up to one trailing delimiter, integer digit spellings (leading zeros,
+   letter case, redundant sign), order of group members, and explicitly written empty/zero optional values. *)
 Require Import GC.Base.Bytes GC.Codec.Types GC.Codec.Strconv GC.Codec.StrconvProofs GC.Codec.TypeInfo
                GC.Codec.Marshal GC.Codec.Unmarshal GC.Codec.Codec GC.Codec.Class GC.Codec.Respell GC.Codec.C20Test
-               GC.Parse.ParseModel GC.Parse.ParseProofs GC.Schemes.Layouts.
+               GC.Parse.ParseModel GC.Parse.ParseProofs GC.Schemes.Layouts
+               GC.Codec.C20PBase GC.Codec.C20Proofs GC.Codec.C20PShipped GC.Codec.C20PExamples.
 
-Definition C20_full_statement : Prop := C20_statement.
+Theorem C20_converse_gen :
+  forall (cb : callbacks) (ti : tinfo) (s : bytes) (m : list (list nat * fval)),
+  unambiguous ti = true ->
+  paths_ok ti = true ->
+  ints_unsized ti = true ->
+  params_noeq ti = true ->
+  arrays_sized ti = true ->
+  ints_wf ti = true ->
+  inline_next_exact (ti_fields ti) = true ->
+  prefix_plain_ok ti = true ->
+  cb_coherent cb ti ->
+  headed ti = true \/ (exists (t : tree) (p : bytes), parse s = POk t /\ prefix t = Some p) ->
+  unmarshal cb ti s = Ok m -> exists s' : bytes, marshal cb ti (sval_of m) = Ok s' /\ respell s s'.
+Proof. exact C20_converse_gen. Qed.
+
+Theorem C20_converse :
+  forall (cb : callbacks) (ti : tinfo) (s : bytes) (m : list (list nat * fval)),
+  unambiguous ti = true ->
+  paths_ok ti = true ->
+  ints_unsized ti = true ->
+  params_noeq ti = true ->
+  arrays_sized ti = true ->
+  ints_wf ti = true ->
+  inline_next_exact (ti_fields ti) = true ->
+  headed ti = true ->
+  prefix_plain_ok ti = true ->
+  cb_coherent cb ti ->
+  unmarshal cb ti s = Ok m -> exists s' : bytes, marshal cb ti (sval_of m) = Ok s' /\ respell s s'.
+Proof. exact C20_converse. Qed.
+
+Theorem C20_std :
+  forall (ti : tinfo) (s : bytes) (m : list (list nat * fval)),
+  c20_side ti = true ->
+  unmarshal std_cb ti s = Ok m ->
+  exists s' : bytes, marshal std_cb ti (sval_of m) = Ok s' /\ respell s s'.
+Proof. exact C20_std. Qed.
+
+Theorem C20_shipped :
+  forall st : list sfield,
+  In st shipped_in_class ->
+  exists ti : tinfo,
+  type_info st = Ok ti /\
+  c20_side ti = true /\
+  (forall (s : bytes) (m : list (list nat * fval)),
+  unmarshal std_cb ti s = Ok m ->
+  exists s' : bytes, marshal std_cb ti (sval_of m) = Ok s' /\ respell s s').
+Proof. exact C20_shipped. Qed.
+
+Theorem C20_std_coherent :
+  forall ti : tinfo, std_ok ti = true -> cb_coherent std_cb ti.
+Proof. exact std_coherent. Qed.
+
+Theorem C20_statement_false :
+  ~ C20_statement.
+Proof. exact C20_statement_false. Qed.
+
+Theorem C20_picky_not_coherent :
+  forall ti : tinfo, type_info L_picky = Ok ti -> ~ cb_coherent std_cb ti.
+Proof. exact picky_not_coherent. Qed.
+
 
 (* nothing of the input is dropped before the codec sees it: the parse tree accounts for the whole string up to
    one trailing delimiter (the first tolerated respelling) *)
-Theorem C20_tree_lossless_partial : forall s t, parse s = POk t ->
+Theorem C20_tree_lossless : forall s t, parse s = POk t ->
   exists tail, In tail [[]; [dollar]; [comma]] /\ render t ++ tail = s.
 Proof. exact parse_lossless. Qed.
 
 (* the second tolerated respelling, exactly: whatever digit text is accepted for an unsigned / signed integer
    field, Marshal writes it back as the same digits without leading zeros, in lower case, "+" dropped, "-0" as "0" *)
-Theorem C20_uint_spelling_partial : forall s base bits v,
+Theorem C20_uint_spelling : forall s base bits v,
   2 <= base <= 36 -> 1 <= bits <= 64 -> ParseUint s base bits = inl v ->
   FormatUint v base = strip_zeros (map lower s) /\ 0 <= v < 2 ^ bits.
 Proof. exact format_parse_uint. Qed.
 
-Theorem C20_int_spelling_partial : forall s base bits v,
+Theorem C20_int_spelling : forall s base bits v,
   2 <= base <= 36 -> 1 <= bits <= 64 -> ParseInt s base bits = inl v ->
   - 2 ^ (bits - 1) <= v < 2 ^ (bits - 1) /\
   exists sign body, s = sign ++ body /\ (sign = [] \/ sign = [43] \/ sign = [45]) /\ body <> [] /\
